@@ -277,7 +277,7 @@ def make_recipe(ctx, k):
         kw = {'max_n': 4, 'min_n': 2, 'coords_as': rng.choice(['coords', 'vars']), 'bounds': rng.choice(['stored', 'stored', 'none']),
               'bounds_as': rng.choice(['vars', 'vars', 'coords'])}
     recipe = G.random_recipe(rng, conv, ctx.tier, **kw)
-    return G.attach_vars(rng, recipe, n_vars=2, max_extra=1, dtypes=('f8', 'i4'))
+    return G.attach_vars(rng, recipe, n_vars=2, max_extra=1, dtypes=('f8', 'f4', 'i4', 'i8'))
 
 
 def examine(ctx, recipe, items) -> None:
